@@ -48,6 +48,10 @@ DEMOS = {
     ("C02r2", "change2"): ("sh", "python3 {out}/demo/demo_compaction_level_reuse.py 2>&1 | tail -25; exit ${PIPESTATUS[0]}", None),
     ("C03r2", "change1"): ("sh", "bash {out}/demo/run.sh 2>&1 | tail -25; exit ${PIPESTATUS[0]}", None),
     ("C03r2", "change2"): ("sh", "bash {out}/demo/run.sh 2>&1 | tail -25; exit ${PIPESTATUS[0]}", None),
+    ("C05r2", "change1"): ("sh", "bash {out}/demo/run.sh 2>&1 | tail -25; exit ${PIPESTATUS[0]}", None),
+    ("C05r2", "change2"): ("sh", "bash {out}/demo/run.sh 2>&1 | tail -25; exit ${PIPESTATUS[0]}", None),
+    ("C07r2", "change1"): ("sh", "bash {out}/demo/run.sh 2>&1 | tail -25; exit ${PIPESTATUS[0]}", None),
+    ("C07r2", "change2"): ("sh", "bash {out}/demo/run.sh 2>&1 | tail -25; exit ${PIPESTATUS[0]}", None),
     ("C01r2", "change1"): ("sh", "python3 {out}/demo/demo.py 2>&1 | tail -25; exit ${PIPESTATUS[0]}", None),
     ("C01r2", "change2"): ("sh", "python3 {out}/demo/demo.py 2>&1 | tail -25; exit ${PIPESTATUS[0]}", None),
 }
